@@ -402,11 +402,8 @@ def mass_matrices(ctx):
     oks = bool(rs)
     for s in rs:
         leaves = {"_np.real(%s)" % rhs: re, "_np.imag(%s)" % rhs: im, rhs: re + NC.scalar("i") * im, "self": F}
-        try:
-            got = NCEval(leaves, morphisms=("solve", "_solve_fun")).ev(s.vnode)
-            oks = oks and got == F * (re + NC.scalar("i") * im)
-        except AnalysisError:
-            oks = False
+        got = NCEval(leaves, morphisms=("solve", "_solve_fun")).ev(s.vnode)  # (unreadable expression: cannot analyse, not a verdict)
+        oks = oks and got == F * (re + NC.scalar("i") * im)
     r2.check(oks, "_Solver.solve complex split", DO, "_Solver.solve", sol.lineno, "pseudo-inverse complex split", "some return path of solve is not F(Re x) + i F(Im x) = F x")
 
 
